@@ -232,10 +232,13 @@ positions 1..11 -/
 
 def figiReserved : List Str := [[66, 83], [66, 77], [71, 71], [71, 66], [71, 72], [75, 89], [86, 71]]
 
-def Std_figi (t : Str) : Bool :=
+/-- the rule with the list of reserved prefixes as a parameter -/
+def Std_figi_res (reserved : List Str) (t : Str) : Bool :=
   t.length == 12 && (t.take 2).all isCons && t.dropLast.all (fun c => isD c || isCons c) &&
-    isD (t.getD 11 0) && !figiReserved.contains (t.take 2) && t.getD 2 0 == 71 &&
+    isD (t.getD 11 0) && !reserved.contains (t.take 2) && t.getD 2 0 == 71 &&
     dad (t.dropLast.map v36) (dv (t.getD 11 0))
+
+def Std_figi (t : Str) : Bool := Std_figi_res figiReserved t
 
 def canon_figi (x : Str) : Str := canonOf (Gen.figi.compact x)
 
@@ -278,8 +281,11 @@ def iso3166 : List Str :=
   Gen.isin._country_codes.filter (fun c =>
     !([[69, 85], [81, 83], [81, 84], [88, 65], [88, 66], [88, 67], [88, 68], [88, 70], [88, 83]] : List Str).contains c)
 
-def Std_bic (t : Str) : Bool :=
-  (t.length == 8 || t.length == 11) && (t.take 6).all isU && t.all isDU && iso3166.contains ((t.drop 4).take 2)
+/-- the shape alone: 8 or 11 characters, six letters, then alphanumerics -/
+def Std_bic_shape (t : Str) : Bool :=
+  (t.length == 8 || t.length == 11) && (t.take 6).all isU && t.all isDU
+
+def Std_bic (t : Str) : Bool := Std_bic_shape t && iso3166.contains ((t.drop 4).take 2)
 
 def canon_bic (x : Str) : Str := canonOf (Gen.bic.compact x)
 
